@@ -28,11 +28,16 @@ pub fn create_matrix(version: Version) -> QRCode {
     let mut qr = QRCode::default(size);
 
     create_matrix_pattern(&mut qr);
+    verif_point!("blank:finder");
     create_matrix_timing(&mut qr);
+    verif_point!("blank:timing");
     create_matrix_dark_module(&mut qr);
     create_matrix_alignments(&mut qr, version);
+    verif_point!("blank:alignment");
     create_matrix_version_info(&mut qr, version);
+    verif_point!("blank:version_info");
     create_matrix_empty(&mut qr);
+    verif_point!("blank:separators");
 
     let n: usize = qr.size;
 
